@@ -420,6 +420,14 @@ func (vc *VC) applySpec(calleeName string, spec *FuncSpec, sig *types.Signature,
 			}
 		}
 	}
+	if vc.callRes == nil {
+		vc.callRes = map[string][]SVal{}
+	}
+	vc.callRes[label] = resVals
+	if vc.callResBlock == nil {
+		vc.callResBlock = map[string]*ssa.BasicBlock{}
+	}
+	vc.callResBlock[label] = vc.curBlock
 	for _, g := range spec.Ghosts {
 		vc.ghostAssign(post, st, g)
 	}
@@ -922,6 +930,11 @@ func (vc *VC) frameObligations(st *State, reach string) {
 		case strings.HasPrefix(n, "E."):
 			conj = append(conj, fmt.Sprintf("(< (base %s) alloc!0)", r), fmt.Sprintf("(>= (base %s) 0)", r))
 		case strings.HasPrefix(n, "GH."):
+			// ghost state attached to objects (key type is a pointer or map type): the entries of objects allocated by
+			// this activation are new, not part of the caller-visible frame
+			if gd := vc.w.ghosts[strings.TrimPrefix(n, "GH.")]; gd != nil && (strings.HasPrefix(strings.TrimSpace(gd.Key), "*") || strings.HasPrefix(strings.TrimSpace(gd.Key), "map[")) {
+				conj = append(conj, fmt.Sprintf("(< (base %s) alloc!0)", r))
+			}
 		default:
 			conj = append(conj, fmt.Sprintf("(< (base %s) alloc!0)", r), fmt.Sprintf("(>= (base %s) 0)", r))
 		}
